@@ -19,6 +19,13 @@ PLAN = {
     "C06": {"level": "model_checking", "campaigns": [camp("c06", C.camp_c06)]},
     "C07": {"level": "model_checking", "campaigns": [camp("c07", C.camp_c07)]},
     "C08": {"level": "model_checking", "campaigns": [camp("c08", C.camp_c08)]},
+    "C09": {"level": "model_checking", "campaigns": [camp("c09", C.camp_c09, {"quick": ["opt", "opt-nopf"], "thorough": ["opt", "opt-nopf", "chk", "chk-nopf"]},
+                                                         xbuild={"quick": ("opt", "opt-nopf"), "thorough": ("opt", "opt-nopf")})]},
+    "C10": {"level": "model_checking", "campaigns": [camp("c10", C.camp_c10, QC)]},
+    "C11": {"level": "model_checking", "campaigns": [camp("c11", C.camp_c11, {"quick": ["opt"], "thorough": ["opt", "chk"]})]},
+    "C12": {"level": "model_checking", "campaigns": [camp("c12", C.camp_c12)]},
+    "C13": {"level": "model_checking", "campaigns": [camp("c13", C.camp_c13)]},
+    "C19": {"level": "model_checking", "campaigns": [camp("c19", C.camp_c19)]},
 }
 
 _TV = "TLC trace validation of recorded executions of the real library against the Level-0 TLA+ clause tables (TraceLib.tla)"
@@ -43,3 +50,16 @@ NOT_APPLICABLE = {}
 for _p in ["C04", "C08", "C09", "C10", "C11", "C12", "C13", "C14", "C15", "C16", "C17", "C18", "C19"]:
     if _p not in PLAN:
         NOT_APPLICABLE[_p] = "check under construction in this revision of /verif (the specification covers it; see DESIGN.md section 6); not claimed yet"
+
+TEXTS.update({
+    "C08": _t("Random and enumerated operation histories on BitVectorMut (all mutators, conversions to/from BitVector, clone, collect) with the full observation set after the steps; TLC tracks the abstract bit sequence through the history and judges every observation.", _TV + "; histories replayed step by step through the specification's mutator actions"),
+    "C09": _t("rank vs rank_prefetch on the same object for valid and invalid arguments (relation judged by TLC), and the same behaviours executed with the crate feature prefetch on and off, whose outcomes TLC requires to be identical; unchecked-index hook on the prefetch sample lookup.", _TV + "; cross-build trace comparison"),
+    "C10": _t("Unchecked methods are called only where the specification's precondition holds (TLC re-checks it) and must equal the checked twin, in the optimized build and in the build with debug assertions and overflow checks.", _TV + "; relation unchecked = checked on spec-legal arguments in two build profiles"),
+    "C11": _t("bincode round trip of every serializable kind: success, equality, and identical answers of original and copy on full query grids, judged by TLC.", _TV),
+    "C12": _t("Every call word over {next, next_back, len} up to |S|+2 (quick) / |S|+3 (thorough) on every tree kind, forward histories on bit/quad/position iterators including calls after exhaustion; TLC folds the specification's iterator step function over each word.", _TV + "; exhaustive call words on small sequences"),
+    "C13": _t("QVectorBuilder push/extend histories and collection from all twelve integer types with negative and large values; TLC computes v mod 4 in two's complement from the logged values.", _TV),
+    "C19": _t("Every construction path, clone, rebuild-from-iterator and wider carrier type of the same input must answer identically and (non-Huffman) compare equal; one-element edits must compare unequal.", _TV),
+})
+for _p in list(NOT_APPLICABLE):
+    if _p in PLAN:
+        del NOT_APPLICABLE[_p]
